@@ -71,7 +71,7 @@ def subunit_close(ctx, T, rng, n):
 
 
 def run(ctx: core.Ctx):
-    ctx.lean_stage(extra_props=("Tie",))
+    ctx.lean_stage(extra_props=("Tie", "L4Live"))
     b2check.run_b2(ctx, jobs, ["C16"], label="lifecycle scenarios")
     T = core.tables()
     subunit_close(ctx, T, ctx.rng, 4000 if ctx.tier == "thorough" else 200)
